@@ -2,18 +2,113 @@
 from pyvc.contracts import Contract, ClassSpec, LoopSpec
 
 
+from .shapes import (PAIR_TYPES, LEVEL_TYPES, WORK_PAIR, WORK_SCALAR, DISK_SCALAR, RAM_SCALAR,  # noqa: F401
+                     SCALAR_TYPES, KNOWN_TYPES, WRITE_TYPES, SHAPE, LIST_SHAPE, one_of)
+
+
 def register(reg):
+    register_operations(reg)
+    register_base(reg)
+    register_iterator(reg)
+
+
+def register_iterator(reg):
+    """F27: the part of the executor that follows from the iterator alone, for every list of
+    well-shaped operations, on the paths where the iterator does not raise itself (its guards:
+    InvalidForwardStep / InvalidActionIndex / InvalidReverseStep / InvalidRevolverAction /
+    RuntimeError, the KeyError of snapshots.remove and the IndexError of the look-ahead at i + 3)."""
+    PREV = "self._schedule[i - 1]"
+    INV = [
+        ("index", "0 <= i and i <= len(self._schedule)"),
+        ("offline", "self._max_n is not None and self._max_n == g.N and not g.done and not self._exhausted"),
+        ("position", "self._n == g.fwd and self._n >= 0"),
+        ("counter", "self._r == g.adj"),
+        ("store_is_snapshot_set", "g.S == snapshots"),
+        # the Write_Forward that precedes a Forward was checked against schedule.n + 1 when it was
+        # processed, and schedule.n has not changed since
+        ("pending_dependency_write",
+         "implies(i >= 1 and %s.type == 'Write_Forward', %s.index[1] == self._n + 1) and "
+         "implies(i >= 1 and %s.type == 'Write_Forward_memory', scalar(%s.index) == self._n + 1)"
+         % (PREV, PREV, PREV, PREV)),
+    ]
+    reg.add(Contract(
+        "hrevolve.RevolveCheckpointSchedule._iterator", self_class="RevolveCheckpointSchedule",
+        params=[("self", "obj")],
+        requires=[("fresh_n", "self._n == 0"), ("fresh_r", "self._r == 0"),
+                  ("not_exhausted", "not self._exhausted"),
+                  # assumption on the list built by the sequence functions (validated at run time):
+                  # the iterator looks at schedule[i - 1], i.e. at the last operation when i == 0
+                  ("list_does_not_end_with_a_write", LIST_SHAPE.replace("schedule", "self._schedule"))],
+        frame=["_n", "_r", "_exhausted"], props=("C01", "C02", "C03", "C04", "C08", "C09", "C11", "C12", "C18"),
+        total=False, implicit_guards=("remove_key_present", "index_in_range"),
+        exc_props={"*": ("C17", "C01", "C02")},
+        locals={"w_n0": "int", "w_storage": ("opt", "storage"), "w_cp_action": "str",
+                "d_cp_action": "str", "d_n0": "int", "cp_action": "str", "n_0": "int", "n_1": "optint",
+                "storage": ("opt", "storage")},
+        hooks={"module": "ghost", "init": "rv_init", "emit_Forward": "rv_forward",
+               "emit_EndForward": "rv_end_forward", "emit_Reverse": "rv_reverse", "emit_Copy": "rv_copy",
+               "emit_Move": "rv_move", "emit_EndReverse": "rv_end_reverse", "stop": "rv_stop"},
+        loops=[
+            LoopSpec("for j in range(len(self._schedule) - 1, -1, -1)", [
+                ("index", "-1 <= it_j and it_j <= len(self._schedule) - 1")],
+                decreases="it_j + 1"),
+            LoopSpec("i < len(self._schedule)", INV, decreases="len(self._schedule) - i"),
+        ]))
+
+
+def register_operations(reg):
+    # F33 (view used by the iterator): an operation is (type, index); index is a step or a pair.
+    # The shape invariant is what every construction site of the sequence builders produces; it is
+    # an assumption here about the list handed to the constructor (validated at run time on every
+    # schedule of the bounded boxes: rtc operation_shape).
+    reg.add_class(ClassSpec("SchedOp", "hrevolve", fields=[("type", "str"), ("index", "opindex")],
+                            invariant=SHAPE))
+    A = "action.type"
+    reg.add(Contract(
+        "hrevolve._convert_action", params=[("action", ("obj", "SchedOp"))],
+        returns=("tuple", ["str", ("tuple", ["int", "optint", ("opt", "storage")])]),
+        # only the structural part of the shape (what the unpacking and the level lookup need);
+        # the function's own checks of the step values are part of its exceptional contract
+        requires=[("shape:" + l, e.replace("self.", "action.")) for l, e in SHAPE[:3]],
+        raises=[("RuntimeError", "(action.type == 'Forward' and action.index[1] <= action.index[0]) or "
+                                 "(action.type == 'Backward' and action.index[0] <= action.index[1])"),
+                ("InvalidRevolverAction", "not %s" % one_of(A, KNOWN_TYPES))],
+        ensures=[
+            ("name_is_type", "result[0] == action.type"),
+            ("forward", "implies(action.type == 'Forward', result[1][0] == action.index[0] and "
+                        "result[1][1] is not None and result[1][1] == action.index[1] and "
+                        "result[1][0] < result[1][1] and result[1][2] is None)"),
+            ("backward", "implies(action.type == 'Backward', result[1][0] == action.index[0] and "
+                         "result[1][1] is not None and result[1][1] == action.index[1] and "
+                         "result[1][0] > result[1][1] and result[1][2] is None)"),
+            ("levelled", "implies(%s, result[1][0] == action.index[1] and result[1][1] is None and "
+                         "result[1][2] is not None and result[1][2] == (StorageType.RAM if action.index[0] == 0 "
+                         "else StorageType.DISK))" % one_of(A, LEVEL_TYPES)),
+            ("work_pair", "implies(%s, result[1][0] == action.index[1] and result[1][1] is None and "
+                          "result[1][2] is not None and result[1][2] == StorageType.WORK)" % one_of(A, WORK_PAIR)),
+            ("work_step", "implies(%s, result[1][0] == scalar(action.index) and result[1][1] is None and "
+                          "result[1][2] is not None and result[1][2] == StorageType.WORK)" % one_of(A, WORK_SCALAR)),
+            ("disk_step", "implies(%s, result[1][0] == scalar(action.index) and result[1][1] is None and "
+                          "result[1][2] is not None and result[1][2] == StorageType.DISK)" % one_of(A, DISK_SCALAR)),
+            ("ram_step", "implies(%s, result[1][0] == scalar(action.index) and result[1][1] is None and "
+                         "result[1][2] is not None and result[1][2] == StorageType.RAM)" % one_of(A, RAM_SCALAR)),
+        ],
+        frame=[], props=("C18", "C01", "C11"),
+        exc_props={"RuntimeError": ("C17",), "InvalidRevolverAction": ("C17",), "*": ("C17", "C18")}))
+
+
+def register_base(reg):
     reg.add_class(ClassSpec(
         "RevolveCheckpointSchedule", "hrevolve", bases=("CheckpointSchedule",),
         fields=[("_exhausted", "bool"), ("_snapshots_on_disk", "optint"), ("_snapshots_in_ram", "int"),
-                ("_schedule", "int")],
+                ("_schedule", ("objlist", "SchedOp"))],
         invariant=[("offline", "self._max_n is not None and self._max_n >= 1"),
                    ("ram_units", "self._snapshots_in_ram >= 1")]))
     # F26: the operation list is opaque here (an identity): the constructor stores what it is given
     reg.add(Contract(
         "hrevolve.RevolveCheckpointSchedule.__init__", self_class="RevolveCheckpointSchedule",
         params=[("self", "obj"), ("max_n", "int"), ("snapshots_in_ram", "int"),
-                ("snapshots_on_disk", "optint"), ("schedule", "int")],
+                ("snapshots_on_disk", "optint"), ("schedule", ("objlist", "SchedOp"))],
         raises=[("ValueError", "max_n < 1"),
                 ("AssertionError", "max_n >= 1 and snapshots_in_ram <= 0")],
         ensures=[("n_zero", "self._n == 0"), ("r_zero", "self._r == 0"),
